@@ -14,5 +14,23 @@ if not br.frugal_ok:
     print(br.frugal_log[-4000:])
 if not br.coq_ok:
     print(br.coq_log[-4000:])
+# Print Assumptions for every property library, in parallel (cached under the hash of the .vo)
+if br.coq_ok:
+    import concurrent.futures
+    import shutil
+    import tempfile
+
+    def pa(prop):
+        d = tempfile.mkdtemp(dir=vlib.CACHE)
+        try:
+            return prop, vlib.proof_status(prop, br, d)["problems"]
+        finally:
+            shutil.rmtree(d, ignore_errors=True)
+
+    props = ["C%02d" % i for i in range(1, 21)]
+    with concurrent.futures.ThreadPoolExecutor(max_workers=10) as ex:
+        for prop, problems in ex.map(pa, props):
+            if problems:
+                print("setup: %s: %s" % (prop, problems[:2]))
 print("setup:", "ok" if ok else "FAILED")
 sys.exit(0 if ok else 1)
